@@ -21,6 +21,8 @@ REGISTRY = {
     "C02": ("auverif.props.c02", "run"),
     "C13": ("auverif.props.c13", "run"),
     "C08": ("auverif.props.c08", "run"),
+    "C05": ("auverif.props.c05", "run"),
+    "C06": ("auverif.props.c06", "run"),
 }
 
 
